@@ -289,6 +289,14 @@ def _check_kinds(case, rec, tmp):
         df = compare_programs(p1, pf)
         if df:
             fails.append(Failure("to_file_differs:%s" % df[0], "the file written by to_file() loads to a different program: %r" % (df,)))
+        # the same with a path instead of an open file (written and read back with the platform's default encoding)
+        path2 = os.path.join(tmp, "out by path.mpt")
+        p1.to_file(path2)
+        with open(path2) as fh:
+            pf2 = Program.from_source(fh.read(), libraries=LIBS, working_dir=tmp)
+        df = compare_programs(p1, pf2)
+        if df:
+            fails.append(Failure("to_file_differs:%s|given_a_path" % df[0], "the file written by to_file(path) loads to a different program: %r" % (df,)))
     except Exception as exc:
         fails.append(Failure("to_file_raises:%s" % type(exc).__name__, repr(exc)))
     # identical results when run
@@ -560,8 +568,13 @@ def kinds_cases(draw):
     api = draw(st.booleans())
     n = draw(st.integers(1, 3))
     cmds, earlier = [], []
+    # result names that look like something else: words the grammar knows, number-like and type-like names
+    odd = ["True", "False", "None", "nan", "inf", "e5", "x1e5", "_", "Float", "Integer", "Kinds", "Metadata", "true", "A.b".replace(".", "_")]
     for i in range(n):
-        c = draw(kinds_command("K%d" % i, earlier, api))
+        nm = "K%d" % i
+        if draw(st.integers(0, 4)) == 0:
+            nm = draw(st.sampled_from([x for x in odd if x not in earlier]))
+        c = draw(kinds_command(nm, earlier, api))
         cmds.append(c)
         earlier.append(c["name"])
     return {"build": "api" if api else "source", "commands": cmds}
